@@ -74,6 +74,8 @@ type exec struct {
 	afterCall      bool
 	obsTerms       []obsTerm
 	unwind         map[string]int
+	aux            []*Term
+	lastEnv        evalEnv
 	choiceInputs   map[string]string
 	pendingAbort   *abortPath
 	nchan          int
@@ -275,14 +277,18 @@ func (ex *exec) inputVars() []*Term {
 
 // model returns the values of all inputs under pc ∧ extra (nil if not sat).
 func (ex *exec) model(extra ...*Term) (SatResult, map[string]string) {
-	vars := ex.inputVars()
-	r, m := ex.solver.ModelWith(vars, extra...)
+	r, env := ex.fullModel(extra...)
 	if r != Sat {
 		return r, nil
 	}
+	ex.lastEnv = env
+	return r, ex.inputsOf(env)
+}
+
+func (ex *exec) inputsOf(env evalEnv) map[string]string {
 	out := map[string]string{}
 	for _, in := range ex.inputs {
-		mv, ok := m[in.T.name]
+		mv, ok := env[in.T.name]
 		if !ok {
 			continue
 		}
@@ -290,88 +296,44 @@ func (ex *exec) model(extra ...*Term) (SatResult, map[string]string) {
 		case SBool:
 			out[in.Name] = fmt.Sprint(mv.B)
 		case SInt:
-			out[in.Name] = mv.N.String()
+			if mv.N != nil {
+				out[in.Name] = mv.N.String()
+			}
 		case SStr:
 			out[in.Name] = mv.S
 		}
 	}
-	return r, out
-}
-
-// evalTermModel evaluates concrete string renderings of observed values.
-func (ex *exec) evalValues(vals []value, extra ...*Term) []string {
-	// gather terms
-	var terms []*Term
-	var collect func(v value)
-	collect = func(v value) {
-		switch v := v.(type) {
-		case sym:
-			terms = append(terms, v.t)
-		case []value:
-			for _, e := range v {
-				collect(e)
-			}
-		case structure:
-			for _, e := range v {
-				collect(e)
-			}
-		case array:
-			for _, e := range v {
-				collect(e)
-			}
-		case tuple:
-			for _, e := range v {
-				collect(e)
-			}
-		case iface:
-			collect(v.v)
-		case *value:
-			if v != nil {
-				collect(*v)
-			}
-		}
-	}
-	for _, v := range vals {
-		collect(v)
-	}
-	vals2 := map[string]ModelVal{}
-	if len(terms) > 0 {
-		// name each term via a fresh var equal to it
-		var vars []*Term
-		var eqs []*Term
-		for i, t := range terms {
-			v := mkVar(fmt.Sprintf("obs!%d!%d", len(ex.taken), i), t.sort)
-			vars = append(vars, v)
-			eqs = append(eqs, tEq(v, t))
-		}
-		all := append(eqs, extra...)
-		r, m := ex.solver.ModelWith(vars, all...)
-		if r == Sat {
-			for i, t := range terms {
-				vals2[t.key] = m[vars[i].name]
-			}
-		}
-	}
-	out := make([]string, len(vals))
-	for i, v := range vals {
-		out[i] = renderValue(v, vals2)
-	}
 	return out
 }
 
-func renderValue(v value, m map[string]ModelVal) string {
+// fullModel returns model values for every declared variable (inputs and
+// auxiliary variables) under pc ∧ extra.
+func (ex *exec) fullModel(extra ...*Term) (SatResult, evalEnv) {
+	vars := append(ex.inputVars(), ex.aux...)
+	r, m := ex.solver.ModelWith(vars, extra...)
+	if r != Sat {
+		return r, nil
+	}
+	return r, evalEnv(m)
+}
+
+func renderValue(v value, m evalEnv) string {
 	switch v := v.(type) {
 	case sym:
-		if mv, ok := m[v.t.key]; ok {
-			switch mv.Sort {
-			case SBool:
-				return fmt.Sprint(mv.B)
-			case SInt:
-				if mv.N != nil {
-					return mv.N.String()
+		if m != nil {
+			if mv, err := evalTerm(v.t, m); err == nil {
+				switch mv.Sort {
+				case SBool:
+					return fmt.Sprint(mv.B)
+				case SInt:
+					if mv.N != nil {
+						return mv.N.String()
+					}
+				case SStr:
+					return fmt.Sprintf("%q", mv.S)
 				}
-			case SStr:
-				return fmt.Sprintf("%q", mv.S)
+			} else {
+				return "<sym:" + err.Error() + ">"
 			}
 		}
 		return "<sym>"
